@@ -43,6 +43,10 @@ THEOREMS = [
     "args_recycle_keeps_subcursor",
     "args_recycle_completes",
     "hint_fill_recycle_then_sub_ops",
+    # per-bond counters that grow on demand (finding F32)
+    "bump_grows_on_demand",
+    "count_eq_scan_all_bonds",
+    "counters_agree_with_model",
     # non-vacuity anchors
     "hC_inv",
     "hC_io",
@@ -76,7 +80,13 @@ RULE = (" HINT HELPERS (bin c11h, mode hint-helpers): a second PRNG stream gener
         "predecessor walks, per-variable first/last/walks (both directions) and get_count(0..8) = scan (`histbad` line on a mismatch, "
         "`histpanic` on a panic). One stateless `recycle` line per step (routes A = All+fill, H = Varlist+hint fill incl. partial hints, "
         "E = empty args; p incl. 0 and occupied slots) compares the recycled cursor with the model (get_empty_args(Args) recomputes only "
-        "`unfilled`) and with the scan.")
+        "`unfilled`) and with the scan. "
+        "BOND COUNTERS (F32): a third of the histories on containers built with counters (new_from_nvars_and_nbonds, 1..6 bonds) also store "
+        "operators whose bond index is up to 4 beyond the table; after every step of a history with counters one `counts` line carries all "
+        "counter events so far (+b stored / -b removed, from the slot differences); the model replays them with bumpCount (resize on demand) / "
+        "dropCount and must reproduce the serde snapshot of bond_counters (length included) and get_count(0..len+2); oracle: get_count(b) = "
+        "number of stored operators with bond b for every b up to two beyond the table / the largest stored bond; check_against_scan covers "
+        "get_count(0..16) after every mutation.")
 
 
 def run(ck):
